@@ -743,6 +743,44 @@ def translate_allometry(src, P):
     return {'allometry_expr': f"Definition allometry_expr : expr := {P.e(as_expr(it.ev(node.value), node))}."}
 
 
+def _nat_expr(n):
+    if isinstance(n, ast.Name):
+        return n.id
+    if isinstance(n, ast.Constant) and isinstance(n.value, int) and not isinstance(n.value, bool) and n.value >= 0:
+        return str(n.value)
+    if isinstance(n, ast.BinOp) and isinstance(n.op, (ast.Add, ast.Sub)):
+        return f"({_nat_expr(n.left)} {'+' if isinstance(n.op, ast.Add) else '-'} {_nat_expr(n.right)})"
+    raise Refuse(f'name index expression at line {getattr(n, "lineno", "?")}')
+
+
+def translate_iov_names(src):
+    """add_iov: the nested helpers iov_name(i) / etai_name(i) return f'<prefix>{<index expression>}'."""
+    fn = src.func('add_iov')
+    out = []
+    for helper, coq in (('iov_name', 'iov_name'), ('etai_name', 'etai_name')):
+        hs = [n for n in ast.walk(fn) if isinstance(n, ast.FunctionDef) and n.name == helper]
+        h = unique(hs, f'add_iov: nested function {helper}')
+        if [a.arg for a in h.args.args] != ['i'] or len(h.body) != 1 or not isinstance(h.body[0], ast.Return):
+            raise Refuse(f'add_iov.{helper}: shape')
+        js = h.body[0].value
+        if not (isinstance(js, ast.JoinedStr) and len(js.values) == 2 and isinstance(js.values[0], ast.Constant)
+                and isinstance(js.values[1], ast.FormattedValue) and js.values[1].conversion == -1
+                and js.values[1].format_spec is None):
+            raise Refuse(f'add_iov.{helper}: not a prefix + index f-string')
+        ex = _nat_expr(js.values[1].value)
+        free = {n.id for n in ast.walk(js.values[1].value) if isinstance(n, ast.Name)}
+        if not free <= {'first_iov_number', 'i'}:
+            raise Refuse(f'add_iov.{helper}: index depends on {sorted(free)}')
+        out.append(f"Definition {coq}_prefix : list N := {codes(js.values[0].value)}.")
+        out.append(f"Definition {coq}_index (first_iov_number i : nat) : nat := ({ex})%nat.")
+    # first_iov_number = int(create_symbol(model, 'IOV_', force_numbering=True).name.split('_')[-1])
+    a = unique([n for n in ast.walk(fn) if isinstance(n, ast.Assign) and ast.unparse(n.targets[0]) == 'first_iov_name'],
+               'add_iov: first_iov_name')
+    if ast.unparse(a.value) != "create_symbol(model, 'IOV_', force_numbering=True).name":
+        raise Refuse('add_iov: first_iov_name is not the next free IOV_<n> symbol')
+    return '\n'.join(out)
+
+
 HEADER = """(* GENERATED by harness/props/c09_templates.py from the pharmpy source — do not edit. *)
 From Coq Require Import QArith NArith List Bool PArith.
 From PV Require Import Base.Expr Base.Interp C09.Model.
@@ -791,6 +829,7 @@ def translate(modeling_dir, overrides=None):
     al = S('allometry.py')
     r = translate_allometry(al, P)
     parts += [r['allometry_expr']]
+    parts += [translate_iov_names(pv)]
     for s in (ce, pv, er, od, al):
         used += s.used
     return HEADER + '\n' + '\n\n'.join(parts) + '\n' + RECORD, used
